@@ -20,6 +20,8 @@ def main(prop, rule, tier, replay):
         n = 2 if tier == "quick" else 24
         seeds = [run_.seed * 1000 + i for i in range(n)]
     results = logrun.run_programs(seeds)
+    # the first program(s) once more built by the second compiler (clang ASan+UBSan)
+    results = results + logrun.run_programs(seeds[:1 if tier == "quick" else 6], tag="casan", minima=[0, 2, 5])
     import shutil
     if shutil.which("valgrind") and not replay:
         # one program (thorough: four) once more on the uninstrumented build under valgrind memcheck
